@@ -8,9 +8,7 @@ import gen_opcond
 import impl
 
 
-def make(dim="spatial_1D", conf="shelf", height=0.05, diameter=0.05, K=100.0, prog=None, cnTemp=None, Nrep=1, extra=None):
-    sn = impl.snowing_mod()
-    oc = impl.opcond_mod()
+def make_over(dim, conf, height, diameter, extra=None):
     over = {"snowing_parameters": {"dimensionality": dim, "configuration": conf},
             "vial": {"geometry": {"height": height, "diameter": diameter}}}
     def deep(d, u):
@@ -20,6 +18,13 @@ def make(dim="spatial_1D", conf="shelf", height=0.05, diameter=0.05, K=100.0, pr
             else:
                 d[k] = v
     deep(over, extra or {})
+    return over
+
+
+def make(dim="spatial_1D", conf="shelf", height=0.05, diameter=0.05, K=100.0, prog=None, cnTemp=None, Nrep=1, extra=None):
+    sn = impl.snowing_mod()
+    oc = impl.opcond_mod()
+    over = make_over(dim, conf, height, diameter, extra)
     prog = prog or dict(start=20, end=-50, rate=1.0 / 60, holds=[], t_tot=4 * 3600.0, dt=1.0)
     op = gen_opcond.build(prog, oc, cnTemp=cnTemp)
     S = sn.Snowing(k={"int": 0, "ext": 0, "s0": K, "s_sigma_rel": 0}, opcond=op, Nrep=Nrep, configPath=impl.cfg_path(over))
@@ -203,7 +208,10 @@ def catalogue(rng, tier, dims=("homogeneous", "spatial_1D", "spatial_2D"), confs
             # supercooled and some grid point lies between T_eq_l and T_m
             over.setdefault("solution", {})["solid_fraction"] = 0.2
             prog.update(start=rng.choice([10, 15]), rate=rng.choice([1.0, 2.0]) / 60, holds=[]); K = 400; h = 0.06
-        cnT = (cn if isinstance(cn, (int, float)) and not isinstance(cn, bool) else rng.choice([-4, -6, -8])) if cn else None
+        if isinstance(cn, (int, float)) and not isinstance(cn, bool):
+            cnT = cn                     # an explicit trigger temperature (0 included)
+        else:
+            cnT = rng.choice([-4, -6, -8]) if cn else None
         S = make(dim=dim, conf=conf, height=h, diameter=d, K=K, prog=prog, cnTemp=cnT, extra=over)
         if tt is None:
             dt, _ = step_info(S)
